@@ -62,8 +62,21 @@ type c12ErrColl struct{}
 
 func (c12ErrColl) Collect(_ context.Context, err error) { vrt.Fatalf("collected error: %v", err) }
 
+// c12Files are the cache files created for the current case; they are removed
+// when the case is over, so that the scratch directory stays small however
+// many cases a process runs.
+var c12Files []string
+
+func c12Cleanup() {
+	for _, f := range c12Files {
+		_ = os.Remove(f)
+	}
+	c12Files = c12Files[:0]
+}
+
 func c12RefrConf(id internal.ID, name string) *refreshable.Config {
 	c12Seq++
+	c12Files = append(c12Files, filepath.Join(c12Dir, fmt.Sprintf("%s-%d.txt", name, c12Seq)))
 
 	return &refreshable.Config{
 		Logger:    c12Logger,
@@ -328,6 +341,7 @@ func c12Parts() []c12Part {
 }
 
 func c12RunCase(r *vrt.Run, parts map[string]c12Part, c c12Case) []vrt.Finding {
+	defer c12Cleanup()
 	p := parts[c.Part]
 	c12Lists[p.list] = p.versions[0]
 	warm := p.newSubj()
